@@ -112,7 +112,22 @@ Definition W3 (s : st) (j : nat) : Prop :=
 Definition W4 (s : st) (j : nat) : Prop := exists t, finhd j (thr s t) = true.
 Definition W5 (s : st) (j : nat) : Prop := exists t r, subhd r (thr s t) = true /\ jf (recs s r) = j.
 Definition W6 (s : st) (j : nat) : Prop := exists c, fcpre s j 0 (thr s c) = true.
-Definition Wit (s : st) (j : nat) : Prop := W1 s j \/ W2 s j \/ W3 s j \/ W4 s j \/ W5 s j \/ W6 s j.
+(* ghost: delegate future d was cancelled by SOMEONE ELSE (EEnvCancel made its Pending -> Cancelled transition) *)
+Definition envc (s : st) (d : nat) : Prop := exists ts, In (HEnvCancel d ts) (hist s).
+(* the G1 situation: the record is in flight on a delegate future that somebody else cancelled; _delegate_callback
+   returns silently for it, nobody takes care of j *)
+Definition W7 (s : st) (j : nat) : Prop :=
+  exists r d, In r (jobs s) /\ jf (recs s r) = j /\ jdel (recs s r) = Some d /\ fcancelled (ds s d) = true /\ envc s d.
+Definition Wit (s : st) (j : nat) : Prop := W1 s j \/ W2 s j \/ W3 s j \/ W4 s j \/ W5 s j \/ W6 s j \/ W7 s j.
+
+Lemma hist_step0 s e s' : step0 s e = Some s' -> forall h, In h (hist s) -> In h (hist s').
+Proof.
+  intros H. s0inv H; auto.
+  all: try (match goal with inl : option outcome |- _ => destruct inl end).
+  all: unfold log, set_prog; simpl; auto.
+Qed.
+Lemma envc_step0 s e s' d : step0 s e = Some s' -> envc s d -> envc s' d.
+Proof. intros H [ts Hin]. exists ts. eapply hist_step0; eassumption. Qed.
 
 Record SI (s : st) : Prop := {
   si_pi : PI s; si_ri : RI s; si_ui : UI s; si_ap : AP s; si_xp : XP s; si_inj : INJ s
